@@ -680,6 +680,17 @@ async def co_stored(v):
     return [r, log]
 
 
+def list_sort(pairs):
+    a = list(pairs)
+    alias = a
+    a.sort(key=lambda p: p[1])
+    b = list(pairs)
+    b.sort(reverse=True)
+    rows = [{"0": str(i)} for i in (1, 10, 2, 11)]
+    rows.sort(key=lambda r: r["0"])
+    return [a, alias is a, b, [r["0"] for r in rows]]
+
+
 def nonlocal_counter(n):
     total = 0
     cache = None
@@ -709,6 +720,6 @@ CASES += [
     ("nested_funcs_defaults", [3]), ("dict_of_lists", [[["a", 1], ["b", 2], ["a", 3]]]),
     ("string_bytes", ["abc"]), ("string_bytes", ["z"]), ("int_parse", ["12"]), ("int_parse", ["x1"]), ("int_parse", ["-7"]),
     ("minmax", [[3, 1, 2], 2]), ("minmax", [[5], 9]),
-    ("nonlocal_counter", [3]), ("nonlocal_counter", [0]), ("bit_lengths", [0]), ("bit_lengths", [2 ** 32 - 1]), ("bit_lengths", [2 ** 32]),
+    ("list_sort", [[[3, "a"], [1, "b"], [2, "a"], [1, "a"]]]), ("nonlocal_counter", [3]), ("nonlocal_counter", [0]), ("bit_lengths", [0]), ("bit_lengths", [2 ** 32 - 1]), ("bit_lengths", [2 ** 32]),
     ("bit_lengths", [-(2 ** 32) - 1]), ("bit_lengths", [255]),
 ]
